@@ -264,7 +264,8 @@ class RaggedArray(IndexableArray, np.lib.mixins.NDArrayOperatorsMixin):
             if self._shape.lengths[-1] == 0:
                 first_last_empty_row = np.searchsorted(self._shape.starts, self._shape.starts[-1], side='left')
                 result = ufunc.reduceat(self.ravel(), self._shape.starts[:first_last_empty_row])
-                pad_value = ufunc.identity if ufunc.identity is not None else 0  # no identity (max/min): empty rows are unspecified
+                # no identity (max/min): empty rows are unspecified; the identity is cast like numpy does (-1 is all ones for unsigned)
+                pad_value = np.asarray(ufunc.identity).astype(result.dtype) if ufunc.identity is not None else 0
                 result = np.pad(result, (0, len(self._shape.starts)-first_last_empty_row), constant_values=pad_value)
             else:
                 result = ufunc.reduceat(self.ravel(), self._shape.starts)
@@ -272,7 +273,7 @@ class RaggedArray(IndexableArray, np.lib.mixins.NDArrayOperatorsMixin):
         # hack to fix problem that reduceat does not give identity when index i == index i+1 (empty rows)
         # not necessary when ufunc does not have identity
         if ufunc.identity is not None:
-            result[ra._shape.lengths == 0] = ufunc.identity
+            result[ra._shape.lengths == 0] = np.asarray(ufunc.identity).astype(result.dtype)
 
         return result
 
